@@ -250,6 +250,8 @@ where
         let now = Instant::now();
 
         let hash = self.inner.hasher.hash_one(key);
+        // The entry may still sit in the write queue: lookups consult the queue before the disk index.
+        self.inner.keeper.remove(hash, key);
         self.inner.engine.delete(hash);
 
         self.inner.metrics.storage_delete.increase(1);
